@@ -75,7 +75,15 @@ def run(chk):
           any(isinstance(x, ast.Call) and ast.unparse(x.func).split(".")[-1] in ("abs", "absolute") for x in ast.walk(n.value))]
     va = [n for n in ast.walk(fe.node) if isinstance(n, ast.Assign) and isinstance(n.value, ast.Call) and
           ast.unparse(n.value.func).split(".")[-1] == "cumulative_trapezoid" and isinstance(n.targets[0], ast.Name)]
-    if len(ea) == 1 and len(va) == 1:
+    inplace_ = len(ea) == 1 and any(isinstance(x, ast.AugAssign) and isinstance(x.target, ast.Name) and x.target.id == ea[0].targets[0].id
+                                    for x in ast.walk(fe.node))
+    if len(ea) == 1 and isinstance(ea[0].value, ast.Call) and ast.unparse(ea[0].value.func).split(".")[-1] in ("abs", "absolute"):
+        inplace_ = True         # the located statement is |v| alone: the product with v and 0.5 is formed elsewhere (in place, in steps)
+    if len(ea) == 1 and len(va) == 1 and inplace_:
+        # the product is finished in place on the located array (e = |v|; e *= v; e *= 0.5): the expression is spread over several statements
+        chk.ob("R-SE-TYPE", "eqsig/surface.py:calc_surface_energy{energy}", "energy = 0.5 * v * |v| with v the integrated velocity", False,
+               derived="formed in place over several statements", loc=fe.loc(ea[0]), inconclusive=True)
+    elif len(ea) == 1 and len(va) == 1:
         v = va[0].targets[0].id
         p = Normaliser().poly(ea[0].value)
         want = Poly.const(Fraction(1, 2)) * Poly.atom(v) * Poly.atom("abs(%s)" % v)
@@ -147,7 +155,9 @@ def run(chk):
                 p = Normaliser().poly(rets[0].value)
                 table[lit] = (p.t.get(((a0n[0], Fraction(1)),)), p.t.get(((a1n[0], Fraction(1)),)), len(p.t))
     chk.ob("R-JOIN", cj + "{table}", "'add' -> a0 + a1 ; 'sub' -> a0 - a1", table == {"add": (1, 1, 2), "sub": (1, -1, 2)},
-           derived="%s" % {k: (str(v[0]), str(v[1])) for k, v in table.items()}, loc=fj.loc())
+           derived="%s" % {k: (str(v[0]), str(v[1])) for k, v in table.items()}, loc=fj.loc(),
+           # neither branch located (a dispatch table, a helper per join type): nothing to compare; a located branch with other coefficients refutes
+           inconclusive=not any(k in table and table[k][0] is not None and table[k][1] is not None for k in ("add", "sub")))
     for jt, sgn in (("add", 1), ("sub", -1)):
         r = analyse(chk, fj.qualname, lambda I, st, fi, jt=jt: dict(values=rec_array("values"), shifts=AV(
             kind=K_ARRAY, dtype="int", shape=(LinExpr(3),), origin=frozenset(["p:shifts"]), tags=frozenset(["p:shifts"])), jtype=const_av(jt)))
@@ -423,6 +433,21 @@ def wave_summary(chk, fi, c):
                 not any(isinstance(x, ast.Call) for x in ast.walk(v_[0].value)) and \
                 not any(isinstance(x, ast.AugAssign) and isinstance(x.target, ast.Name) and x.target.id == k_ for x in ast.walk(fi.node)):
             nm.env[k_] = Normaliser().poly(v_[0].value)
+    # a local bound once to the record read for reading only (values = asig.values, np.asarray(asig.values)), to its length (npts = asig.npts,
+    # len(values)) or to an index vector np.arange(E) is what it names
+    for k_, v_ in once_.items():
+        if len(v_) != 1 or k_ in fi.params or k_ in ("shifts", "max_shift", "up_wave", "down_waves", "dshifted", "acc_series") or \
+                any(isinstance(x, ast.AugAssign) and isinstance(x.target, ast.Name) and x.target.id == k_ for x in ast.walk(fi.node)) or \
+                any(isinstance(x, ast.Subscript) and isinstance(x.ctx, ast.Store) and isinstance(x.value, ast.Name) and x.value.id == k_ for x in ast.walk(fi.node)):
+            continue
+        val_ = v_[0].value
+        if isinstance(val_, ast.Call) and ast.unparse(val_.func) in ("np.asarray", "np.asanyarray", "numpy.asarray") and val_.args and \
+                nm.arg(val_.args[0]) == "asig.values":
+            nm.env[k_] = Poly.atom("asig.values")
+        elif isinstance(val_, ast.Call) and ast.unparse(val_.func) == "len" and val_.args and nm.arg(val_.args[0]) == "asig.values":
+            nm.env[k_] = Poly.atom("asig.npts")
+        elif isinstance(val_, ast.Call) and ast.unparse(val_.func) in ("np.arange", "numpy.arange") and len(val_.args) == 1 and not val_.keywords:
+            nm.env[k_] = Poly.atom("np.arange(%s)" % nm.poly(val_.args[0]).canon())
     byname = {}
     for n in assigns:
         byname.setdefault(n.targets[0].id, []).append(n)
@@ -441,8 +466,13 @@ def wave_summary(chk, fi, c):
     if uw is not None and isinstance(uw.value, ast.Call):
         call = uw.value
         out["up_wave"] = nm.opaque(call)
-        okp = ast.unparse(call.func).split(".")[-1] == "pad" and nm.arg(call.args[0]) == "asig.values" and \
-            ast.unparse(call.args[1]).replace(" ", "") == "(0,max_shift)" and any(k.arg == "constant_values" and ast.unparse(k.value) == "0" for k in call.keywords)
+        def _zero(e_):
+            return isinstance(e_, ast.Constant) and isinstance(e_.value, (int, float)) and not isinstance(e_.value, bool) and e_.value == 0
+        cv_ = [k.value for k in call.keywords if k.arg == "constant_values"]
+        md_ = [k.value for k in call.keywords if k.arg == "mode"] + list(call.args[2:3])
+        okp = ast.unparse(call.func).split(".")[-1] == "pad" and nm.poly(call.args[0]).canon() == "1*asig.values" and \
+            ast.unparse(call.args[1]).replace(" ", "") == "(0,max_shift)" and \
+            ((cv_ and _zero(cv_[0])) or (not cv_ and md_ and isinstance(md_[0], ast.Constant) and md_[0].value == "constant"))      # zeros are mode='constant''s default fill
         chk.ob("R-SE-SIGN", c + "{up wave}", "up = record zero-padded at the end by max_shift", okp, derived=norm_stmt(uw), loc=fi.loc(uw))
     ds = one("dshifted")
     if ds is not None:
@@ -455,9 +485,21 @@ def wave_summary(chk, fi, c):
     if dw is not None and isinstance(dw.value, ast.Call):
         call = dw.value
         out["down_waves"] = nm.opaque(call)
-        kws = {k.arg: ast.unparse(k.value) for k in call.keywords}
+        kwn = {k.arg: k.value for k in call.keywords}
+
+        def _zero2(e_):
+            return isinstance(e_, ast.Constant) and isinstance(e_.value, (int, float)) and not isinstance(e_.value, bool) and e_.value == 0
+
+        def _xp_ok(e_):
+            """arange(npts), or the first npts entries of a longer arange"""
+            if nm.poly(e_).canon() in ("1*np.arange(asig.npts)", "1*np.arange(1*asig.npts)"):
+                return True
+            if isinstance(e_, ast.Subscript) and isinstance(e_.slice, ast.Slice) and e_.slice.lower is None and e_.slice.step is None and \
+                    e_.slice.upper is not None and nm.poly(e_.slice.upper).canon() == "1*asig.npts" and nm.poly(e_.value).canon().startswith("1*np.arange("):
+                return True
+            return False
         oki = ast.unparse(call.func).split(".")[-1] == "interp" and len(call.args) >= 3 and nm.arg(call.args[0]) == "dshifted" and \
-            nm.arg(call.args[1]) in ("np.arange(asig.npts)",) and nm.arg(call.args[2]) == "asig.values" and kws.get("left") == "0" and kws.get("right") == "0"
+            _xp_ok(call.args[1]) and nm.poly(call.args[2]).canon() == "1*asig.values" and _zero2(kwn.get("left")) and _zero2(kwn.get("right"))
         chk.ob("R-SE-SIGN", c + "{delayed wave}", "down = np.interp(positions, arange(npts), record, left=0, right=0)", oki, derived=norm_stmt(dw),
                loc=fi.loc(dw))
     # nodal branches
